@@ -118,6 +118,7 @@ package bt
 //@   ensures[clonescript] (and (not (nil? result)) (= (len result) (ite (nil? s) 0 (old (len s)))))
 //@ func bt.(*Tx).Clone
 //@   bytes array
+//@   opt closed-heaps 1
 //@   opt frame-all 1
 //@   fresh result
 //@   ensures[clone_nonnil] (not (nil? result))
@@ -329,6 +330,7 @@ package bt
 
 //@ func bt.(*Tx).estimatedFinalTx
 //@   bytes array
+//@   opt closed-heaps 1
 //@   requires (spec.inputs_nonnil tx) (spec.outputs_nonnil tx)
 //@   fresh result
 //@   ensures[est_final_wf] (=> (= err nil) (and (not (nil? result)) (spec.inputs_nonnil result) (spec.out_scripts_nonnil result) (= (len (. result Inputs)) (len (. tx Inputs))) (= (len (. result Outputs)) (len (. tx Outputs)))))
